@@ -765,6 +765,12 @@ def rule_sk_err(cx, rep, port):
                 continue
             if not any(feats <= i['features'] for i in m):
                 problems.append((m[0]['node'], 'the {} report for {} lacks {} (message: `{}`)'.format(cls, guard, sorted(feats - m[0]['features']), node_text(m[0]['node']))))
+        # the read of the next input record stays outside that try (unless IO errors are re-raised unchanged): its failures are
+        # IO / decoding errors of the input, not errors of the query at record N
+        reads = [c for b in t.body for c in ast.walk(b) if isinstance(c, ast.Call) and isinstance(c.func, ast.Attribute) and c.func.attr == 'get_record' and 'input_iterator' in (dotted(c.func.value) or '')]
+        io_passthrough = any(i['guard'] in ('RbqlIOHandlingError',) and i['raises'] == 'reraise' for i in info)
+        if reads and not io_passthrough:
+            problems.append((reads[0], 'the next input record is read inside the per-record try: a decoding / IO error of the input is caught by the catch-all handler and reported as a query runtime error "At record N" instead of an IO handling error'))
         if problems:
             rep.violated(sk.name, problems[0][0], problems[0][1])
         else:
@@ -1093,6 +1099,20 @@ def rule_sk_relay(cx, rep, port):
                 verdicts.append(pol)
         val = strip(q.value) if q.kind == 'return' and q.value is not None else None
         direct = val is not None and is_write(val)
+        # the entry handed to the writer is built for this call: not one of the caller's own arrays extended in place
+        # (select_unnested calls select_simple once per list element with the same sort key; a buffering writer keeps every entry)
+        params_ = {a.arg for a in fd.args.args}
+        grown = {c.func.value.id for c in q.calls if isinstance(c, ast.Call) and isinstance(c.func, ast.Attribute) and c.func.attr in ('push', 'append', 'extend', 'unshift', 'insert', 'splice') and isinstance(c.func.value, ast.Name) and c.func.value.id in params_}
+        grown |= {t_.value.id for t_, _ in q.stores if isinstance(t_, ast.Subscript) and isinstance(t_.value, ast.Name) and t_.value.id in params_}
+        handed = []
+        for e_ in [a_ for a_, _ in pathsem.atoms(q.conds)] + list(q.calls) + ([q.value] if q.value is not None else []):
+            e_ = strip(e_)
+            if is_write(e_):
+                handed.extend(strip(a_) for a_ in strip(e_).args)
+        shared = [a_ for a_ in handed if isinstance(a_, ast.Name) and a_.id in grown]
+        if shared:
+            rep.violated('select_simple entry', q.node, 'the entry written is the caller\'s own `{}` extended in place: select_unnested passes one sort key for all elements of a list, so a buffering writer ends up with the same object several times (every row of the record shows the last element)'.format(shared[0].id))
+            return
         writes = len(verdicts) + (1 if direct else 0) + sum(1 for c in q.calls if is_write(c))
         if writes != 1:
             rep.violated('select_simple writes', q.node, 'a path of select_simple hands the record to the writer {} times (must be exactly once)'.format(writes))
